@@ -30,6 +30,8 @@ RULE = ("cases: bundled cones over their parameter ranges (ConeTheta2D θ=1°…
 ASSUMPTIONS = [
     "cones have non-empty interior (every generated cone has an interior direction by construction)",
     "solver tolerance: code values are compared with certified intervals widened by 1e-7 (α absolute; d₁ relative to max(1,d₁))",
+    "compute_u_star calls that exceed a 5 s wall-clock budget are counted as inconclusive (SLSQP with ftol=1e-30 / maxiter=10**6 "
+    "can iterate for minutes after reaching the optimum); after three overruns per class and process the routine is skipped",
 ]
 
 TOL_BAND = Fraction(1, 10 ** 7)
@@ -281,7 +283,7 @@ class _Timeout(Exception):
     pass
 
 
-U_STAR_BUDGET_S = 10.0  # a normal call takes milliseconds
+U_STAR_BUDGET_S = 5.0  # a normal call takes milliseconds
 _timeouts = {}  # class name -> number of budget overruns in this process
 
 
@@ -398,8 +400,13 @@ def run_case(ctx, case):
             u = np.array(u, dtype=float).reshape(-1)
             d = float(d)
         except _Timeout:
+            # Not a property violation: on the unchanged tree SLSQP reaches the optimum within a few
+            # iterations but, with ftol=1e-30 and maxiter=10**6, may keep iterating for minutes (observed:
+            # single-facet cones in 3-D, ~7 min, correct result).  Budget overrun = inconclusive.
             _timeouts[tag] = _timeouts.get(tag, 0) + 1
-            ctx.violation(f"ustar-timeout:{tag}", f"{tag}.compute_u_star did not return within {U_STAR_BUDGET_S:.0f} s", case)
+            ctx.count("ustar_budget_exceeded_info")
+            ctx.info(f"{tag}.compute_u_star exceeded the {U_STAR_BUDGET_S:.0f} s budget on {str(case)[:160]}")
+            good = False
             continue
         except Exception as e:
             ctx.violation(f"ustar-crash:{tag}:" + core.exc_key(e), f"{tag}.compute_u_star raised {type(e).__name__}: {e}", case)
